@@ -9,3 +9,4 @@ import Props.C06
 #print axioms Bycycle.C06_antitone
 #print axioms Bycycle.C06_rejects_threshold
 #print axioms Bycycle.C06_rejects_minN
+#print axioms Bycycle.C06_pipeline
